@@ -141,6 +141,25 @@ def genC11Cases (tier : String) (seed : Nat) : Array Case := Id.run do
         let c : Case := { id := s!"c11-{b}-{k}", op := "conv", args := a1, exp := Json.str rule.code, tag := rule.name ++ "@" ++ ctx, note := n1 }
         out := out.push c
         k := k + 1
+  -- fixed base statements, every rule planted at every position between the parts (in particular
+  -- behind a nested statement, a combination of nested statements and a pair combination)
+  let fixedBases : List (List String) := [
+    ["A(Program Manager)", "D(may)", "I(suspend)", "Bdir(certificate)", "Cac{A(operator) I(violates) Bdir(rules)}"],
+    ["A(actor)", "I(act)", "Cac{A(a) I(b)}", "Cex{A(c) I(d)}"],
+    ["A(officer)", "I(reports)", "Cac{Cac{A(a) I(b)} [OR] Cac{A(c) I(d)}}", "Bdir(violation)"],
+    ["A(actor)", "{I(inspect) Bdir(farm) [AND] I(report) Bdir(result)}", "Cac{A(x) I(y)}"]]
+  let mut fb := 0
+  for base in fixedBases do
+    let a0 := Json.mkObj [("text", (" ".intercalate base : Json)), ("id", ("1" : Json))]
+    out := out.push { id := s!"c11-fb{fb}", op := "conv", args := a0, exp := Json.str "NO_ERROR_DURING_PARSING", tag := "well-formed" }
+    for rule in Rule.all do
+      for pos in [0:base.length + 1] do
+        let text := " ".intercalate (base.take pos ++ [rule.plant (pos + fb)] ++ base.drop pos)
+        let a1 := Json.mkObj [("text", (text : Json)), ("id", ("1" : Json))]
+        let n1 := Json.mkObj [("kf", ("" : Json)), ("rule", (rule.name : Json)), ("ctx", ("top" : Json))]
+        out := out.push { id := s!"c11-f{fb}-{rule.name}-{pos}", op := "conv", args := a1, exp := Json.str rule.code,
+                          tag := rule.name ++ "@fixed", note := n1 }
+    fb := fb + 1
   -- a lone closing or opening bracket in statements that otherwise contain no bracket of that kind
   for (t, k) in [("A(Program Manager) D(may) I(inspect) Bdir(certified operations)}", 0), ("A(actor) I(act) } Bdir(x)", 1),
                  ("{ A(actor) I(act)", 2), ("A(actor) I(act) Cac{A(x) I(y)", 3), ("A(actor) I(act)) Bdir(x)", 4), ("A(actor I(act)", 5),
